@@ -322,4 +322,560 @@ theorem K_run (as : List AFrag) : ∀ (st : PState) (TS : List Tok) (lt slt : Op
     refine ⟨lt2, ?_, hr2⟩
     simpa [run, List.flatMap_cons, List.append_assoc] using hK2
 
+/-! ## Part II: the expression printer's fragments, annotated -/
+
+def aW (body : List (Tok × Nat)) (lead : Nat := 0) : AFrag := ⟨true, lead, body⟩
+def aR (body : List (Tok × Nat)) (lead : Nat := 0) : AFrag := ⟨false, lead, body⟩
+
+mutual
+/-- `exprFrags Shared.clean`, every fragment split into leading blanks and tokens with the blanks after them -/
+def annot : Expr → Bool → Option BinOp → List AFrag
+  | .lit l, _, _ => [aW ((litToks l).map fun t => (t, 0))]
+  | .ident s, _, _ => [aW [(.id s, 0)]]
+  | .bin o a b, paren, prev =>
+    (if binParen o paren prev then [aW [(.lp, 1)]] else [])
+      ++ annot a true (some o) ++ [aR [] 1, aW [(.op o, 0)], aW [] 1] ++ annot b true (some o)
+      ++ (if binParen o paren prev then [aR [(.rp, 0)] 1] else [])
+  | .neg a, paren, _ =>
+    (if paren then [aW [(.lp, 1)]] else []) ++ [aW [(.op .minus, 0)]] ++ annot a true none ++ (if paren then [aR [(.rp, 0)] 1] else [])
+  | .not a, paren, _ =>
+    (if paren then [aW [(.lp, 1)]] else []) ++ [aW [(.not, 1)]] ++ annot a true none ++ (if paren then [aR [(.rp, 0)] 1] else [])
+  | .dot a f, _, _ => annot a true none ++ [aW [(.dot, 0)], aW [(.id f, 0)]]
+  | .group a f, _, _ => annot a true none ++ [aW [(.bslash, 0)], aW [(.id f, 0)]]
+  | .index a i, _, _ => annot a true none ++ [aW [(.lb, 0)]] ++ annot i (indexParen i) none ++ [aR [(.rb, 0)]]
+  | .range a i j, _, _ =>
+    annot a true none ++ [aW [(.lb, 0)]] ++ annot i (indexParen i) none ++ [aW [(.colon, 1)] 1] ++ annot j (indexParen j) none ++ [aR [(.rb, 0)]]
+  | .query v s c, _, _ =>
+    [aW [(.kw "QUERY", 1), (.lp, 1), (.id v, 1), (.allIn, 1)]] ++ annot s true none ++ [aW [(.bar, 1)] 1] ++ annot c true none ++ [aR [(.rp, 0)] 1]
+  | .call f args, _, _ => [aW [(.id f, 0), (.lp, 1)]] ++ argA args true ++ [aR [(.rp, 0)] 1]
+  | .aggr items, _, _ => [aW [(.lb, 0)]] ++ itemA items true ++ [aR [(.rb, 0)]]
+  | .nil, _, _ => []
+  | .cons _ _, _, _ => []
+  | .rep _ _ _, _, _ => []
+def argA : Expr → Bool → List AFrag
+  | .cons e t, first => (if first then [] else [aR [(.comma, 1)]]) ++ annot e false none ++ argA t false
+  | _, _ => []
+def itemA : Expr → Bool → List AFrag
+  | .cons e t, first => (if first then [] else [aR [(.comma, 1)]]) ++ annot e false none ++ itemA t false
+  | .rep e c t, first =>
+    (if first then [] else [aR [(.comma, 1)]]) ++ annot e false none ++ [aR [(.colon, 1)] 1]
+      ++ (if ExpPrec.repeatOverwritesCountType then [aW [(countTok c, 0)]] else annot c false none)
+      ++ itemA t false
+  | _, _ => []
+end
+
+/-- literals whose printed form is one token of the scanner model (real literals and simple string literals are not covered:
+a real token is compared by value, a long string literal is split by `breakLongStr`) -/
+def LitLex : Lit → Prop
+  | .real _ => False
+  | .str _ => False
+  | .estr s => TokWF (.estr s)
+  | .bin s => TokWF (.bin s)
+  | _ => True
+
+mutual
+/-- expressions covered by the character-level theorem: identifiers are words the scanner reads as identifiers, literals as in
+`LitLex`, and the operand of `.` is not an integer literal (the resolver rejects that: PE008) -/
+def lexWF : Expr → Prop
+  | .lit l => LitLex l
+  | .ident s => TokWF (.id s)
+  | .bin _ a b => lexWF a ∧ lexWF b
+  | .neg a | .not a => lexWF a
+  | .dot a f => lexWF a ∧ TokWF (.id f) ∧ ∀ n, a ≠ .lit (.int n)
+  | .group a f => lexWF a ∧ TokWF (.id f)
+  | .index a i => lexWF a ∧ lexWF i
+  | .range a i j => lexWF a ∧ lexWF i ∧ lexWF j
+  | .query v s c => TokWF (.id v) ∧ lexWF s ∧ lexWF c
+  | .call f as => TokWF (.id f) ∧ lexArgs as
+  | .aggr is => lexItems is
+  | .nil | .cons _ _ | .rep _ _ _ => False
+def lexArgs : Expr → Prop
+  | .nil => True
+  | .cons e t => lexWF e ∧ lexArgs t
+  | _ => False
+def lexItems : Expr → Prop
+  | .nil => True
+  | .cons e t => lexWF e ∧ lexItems t
+  | .rep e c t => lexWF e ∧ lexWF c ∧ lexItems t
+  | _ => False
+end
+
+theorem frag_aW_tok (t : Tok) : (aW [(t, 0)]).frag = .wrap (sp t) := by
+  simp [aW, AFrag.frag, AFrag.text, bodyText, blanks]
+theorem frag_lp : (aW [(.lp, 1)]).frag = W "( " := by decide
+theorem frag_rp : (aR [(.rp, 0)] 1).frag = R " )" := by decide
+theorem frag_sp_r : (aR [] 1).frag = R " " := by decide
+theorem frag_sp_w : (aW [] 1).frag = W " " := by decide
+theorem frag_not : (aW [(.not, 1)]).frag = W "NOT " := by decide
+theorem frag_minus : (aW [(.op .minus, 0)]).frag = W "-" := by decide
+theorem frag_dot : (aW [(.dot, 0)]).frag = W "." := by decide
+theorem frag_bslash : (aW [(.bslash, 0)]).frag = W "\\" := by decide
+theorem frag_lb : (aW [(.lb, 0)]).frag = W "[" := by decide
+theorem frag_rb : (aR [(.rb, 0)]).frag = R "]" := by decide
+theorem frag_colon_w : (aW [(.colon, 1)] 1).frag = W " : " := by decide
+theorem frag_colon_r : (aR [(.colon, 1)] 1).frag = R " : " := by decide
+theorem frag_bar : (aW [(.bar, 1)] 1).frag = W " | " := by decide
+theorem frag_comma : (aR [(.comma, 1)]).frag = R ", " := by decide
+theorem frag_id (s : String) : (aW [(.id s, 0)]).frag = W s := by rw [frag_aW_tok]; rfl
+theorem frag_op (o : BinOp) : (aW [(.op o, 0)]).frag = W o.text := by rw [frag_aW_tok]; rfl
+theorem frag_query (v : String) : (aW [(.kw "QUERY", 1), (.lp, 1), (.id v, 1), (.allIn, 1)]).frag = W ("QUERY ( " ++ v ++ " <* ") := by
+  have h1 : "QUERY ( ".toList = "QUERY".toList ++ [' ', '(', ' '] := by decide
+  have h2 : " <* ".toList = [' ', '<', '*', ' '] := by decide
+  simp [aW, AFrag.frag, AFrag.text, bodyText, blanks, W, sp, String.toList_append, h1, h2]
+theorem frag_call (f : String) : (aW [(.id f, 0), (.lp, 1)]).frag = W (f ++ "( ") := by
+  have h1 : "( ".toList = ['(', ' '] := by decide
+  simp [aW, AFrag.frag, AFrag.text, bodyText, blanks, W, sp, String.toList_append, h1]
+
+theorem frag_lit (l : Lit) (h : LitLex l) : (aW ((litToks l).map fun t => (t, 0))).frag = litFrag false l ∧ ∀ b, litFrag b l = litFrag false l := by
+  have hb : ExpPrec.binaryPrintedFrom = ExpPrec.binaryStoredIn := by decide
+  cases l with
+  | real g => exact absurd h (by simp [LitLex])
+  | str s => exact absurd h (by simp [LitLex])
+  | int n => exact ⟨by simp only [litToks, List.map]; rw [frag_aW_tok]; rfl, fun _ => rfl⟩
+  | estr s =>
+    refine ⟨?_, fun _ => rfl⟩
+    simp only [litToks, List.map]; rw [frag_aW_tok]
+    have h1 : "\"".toList = ['"'] := by decide
+    simp [litFrag, W, sp, String.toList_append, h1]
+  | bin s =>
+    refine ⟨?_, fun _ => rfl⟩
+    simp only [litToks, List.map, hb, if_true]; rw [frag_aW_tok]
+    have h1 : "%".toList = ['%'] := by decide
+    simp [litFrag, W, sp, String.toList_append, h1, hb]
+  | ltrue => exact ⟨by decide, fun _ => rfl⟩
+  | lfalse => exact ⟨by decide, fun _ => rfl⟩
+  | lunknown => exact ⟨by decide, fun _ => rfl⟩
+  | pi => exact ⟨by decide, fun _ => rfl⟩
+  | e => exact ⟨by decide, fun _ => rfl⟩
+  | infinity => exact ⟨by decide, fun _ => rfl⟩
+  | self => exact ⟨by decide, fun _ => rfl⟩
+
+theorem toks_aW (b : List (Tok × Nat)) (l : Nat) : (aW b l).toks = b.map (·.1) := rfl
+theorem toks_aR (b : List (Tok × Nat)) (l : Nat) : (aR b l).toks = b.map (·.1) := rfl
+
+theorem litToks_map (l : Lit) : ((litToks l).map fun t => (t, 0)).map (·.1) = litToks l := by
+  simp [List.map_map, Function.comp_def]
+
+/-- the annotation is the printer's fragment list and carries the printer's tokens -/
+theorem annot_eq (e : Expr) :
+    (∀ p q, lexWF e → (annot e p q).map AFrag.frag = exprFrags Shared.clean e p q
+        ∧ (annot e p q).flatMap AFrag.toks = toks Shared.clean e p q)
+    ∧ (∀ fst, lexArgs e → (argA e fst).map AFrag.frag = argFrags Shared.clean e fst
+        ∧ (argA e fst).flatMap AFrag.toks = argToks Shared.clean e fst)
+    ∧ (∀ fst, lexItems e → (itemA e fst).map AFrag.frag = itemFrags Shared.clean e fst
+        ∧ (itemA e fst).flatMap AFrag.toks = itemToks Shared.clean e fst) := by
+  have hrep : ExpPrec.repeatOverwritesCountType = false := rfl
+  induction e with
+  | lit l =>
+    refine ⟨?_, fun _ h => absurd h (by simp [lexArgs]), fun _ h => absurd h (by simp [lexItems])⟩
+    intro p q h
+    simp only [lexWF] at h
+    obtain ⟨h1, h2⟩ := frag_lit l h
+    simp only [annot, exprFrags, toks, List.map_cons, List.map_nil, List.flatMap_cons, List.flatMap_nil, List.append_nil, toks_aW,
+      litToks_map, h1, h2 (p && q != some BinOp.plus)]
+    simp
+  | ident s =>
+    refine ⟨?_, fun _ h => absurd h (by simp [lexArgs]), fun _ h => absurd h (by simp [lexItems])⟩
+    intro p q _
+    simp [annot, exprFrags, toks, frag_id, toks_aW]
+  | bin o a b iha ihb =>
+    refine ⟨?_, fun _ h => absurd h (by simp [lexArgs]), fun _ h => absurd h (by simp [lexItems])⟩
+    intro p q h
+    simp only [lexWF] at h
+    obtain ⟨a1, a2⟩ := iha.1 true (some o) h.1
+    obtain ⟨b1, b2⟩ := ihb.1 true (some o) h.2
+    by_cases hp : binParen o p q = true <;>
+      simp [annot, exprFrags, toks, hp, a1, a2, b1, b2, padded_all, frag_lp, frag_rp, frag_sp_r, frag_sp_w, frag_op, toks_aW, toks_aR]
+  | neg a iha =>
+    refine ⟨?_, fun _ h => absurd h (by simp [lexArgs]), fun _ h => absurd h (by simp [lexItems])⟩
+    intro p q h
+    simp only [lexWF] at h
+    obtain ⟨a1, a2⟩ := iha.1 true none h
+    have hm : BinOp.minus.text = "-" := by decide
+    cases p <;> simp [annot, exprFrags, toks, a1, a2, frag_lp, frag_rp, frag_minus, toks_aW, toks_aR]
+  | not a iha =>
+    refine ⟨?_, fun _ h => absurd h (by simp [lexArgs]), fun _ h => absurd h (by simp [lexItems])⟩
+    intro p q h
+    simp only [lexWF] at h
+    obtain ⟨a1, a2⟩ := iha.1 true none h
+    cases p <;> simp [annot, exprFrags, toks, a1, a2, frag_lp, frag_rp, frag_not, toks_aW, toks_aR]
+  | dot a f iha =>
+    refine ⟨?_, fun _ h => absurd h (by simp [lexArgs]), fun _ h => absurd h (by simp [lexItems])⟩
+    intro p q h
+    simp only [lexWF] at h
+    obtain ⟨a1, a2⟩ := iha.1 true none h.1
+    simp [annot, exprFrags, toks, a1, a2, frag_dot, frag_id, toks_aW]
+  | group a f iha =>
+    refine ⟨?_, fun _ h => absurd h (by simp [lexArgs]), fun _ h => absurd h (by simp [lexItems])⟩
+    intro p q h
+    simp only [lexWF] at h
+    obtain ⟨a1, a2⟩ := iha.1 true none h.1
+    simp [annot, exprFrags, toks, a1, a2, frag_bslash, frag_id, toks_aW]
+  | index a i iha ihi =>
+    refine ⟨?_, fun _ h => absurd h (by simp [lexArgs]), fun _ h => absurd h (by simp [lexItems])⟩
+    intro p q h
+    simp only [lexWF] at h
+    obtain ⟨a1, a2⟩ := iha.1 true none h.1
+    obtain ⟨i1, i2⟩ := ihi.1 (indexParen i) none h.2
+    simp [annot, exprFrags, toks, a1, a2, i1, i2, frag_lb, frag_rb, toks_aW, toks_aR]
+  | range a i j iha ihi ihj =>
+    refine ⟨?_, fun _ h => absurd h (by simp [lexArgs]), fun _ h => absurd h (by simp [lexItems])⟩
+    intro p q h
+    simp only [lexWF] at h
+    obtain ⟨a1, a2⟩ := iha.1 true none h.1
+    obtain ⟨i1, i2⟩ := ihi.1 (indexParen i) none h.2.1
+    obtain ⟨j1, j2⟩ := ihj.1 (indexParen j) none h.2.2
+    simp [annot, exprFrags, toks, a1, a2, i1, i2, j1, j2, frag_lb, frag_rb, frag_colon_w, toks_aW, toks_aR]
+  | query v s c ihs ihc =>
+    refine ⟨?_, fun _ h => absurd h (by simp [lexArgs]), fun _ h => absurd h (by simp [lexItems])⟩
+    intro p q h
+    simp only [lexWF] at h
+    obtain ⟨s1, s2⟩ := ihs.1 true none h.2.1
+    obtain ⟨c1, c2⟩ := ihc.1 true none h.2.2
+    simp [annot, exprFrags, toks, s1, s2, c1, c2, frag_query, frag_bar, frag_rp, toks_aW, toks_aR]
+  | call f args ih =>
+    refine ⟨?_, fun _ h => absurd h (by simp [lexArgs]), fun _ h => absurd h (by simp [lexItems])⟩
+    intro p q h
+    simp only [lexWF] at h
+    obtain ⟨s1, s2⟩ := ih.2.1 true h.2
+    simp [annot, exprFrags, toks, s1, s2, frag_call, frag_rp, toks_aW, toks_aR]
+  | aggr items ih =>
+    refine ⟨?_, fun _ h => absurd h (by simp [lexArgs]), fun _ h => absurd h (by simp [lexItems])⟩
+    intro p q h
+    simp only [lexWF] at h
+    obtain ⟨s1, s2⟩ := ih.2.2 true h
+    simp [annot, exprFrags, toks, s1, s2, frag_lb, frag_rb, toks_aW, toks_aR]
+  | nil =>
+    refine ⟨fun _ _ h => absurd h (by simp [lexWF]), ?_, ?_⟩
+    · intro fst _; simp [argA, argFrags, argToks]
+    · intro fst _; simp [itemA, itemFrags, itemToks]
+  | cons e t ihe iht =>
+    refine ⟨fun _ _ h => absurd h (by simp [lexWF]), ?_, ?_⟩
+    · intro fst h
+      simp only [lexArgs] at h
+      obtain ⟨e1, e2⟩ := ihe.1 false none h.1
+      obtain ⟨t1, t2⟩ := iht.2.1 false h.2
+      cases fst <;> simp [argA, argFrags, argToks, e1, e2, t1, t2, frag_comma, toks_aR]
+    · intro fst h
+      simp only [lexItems] at h
+      obtain ⟨e1, e2⟩ := ihe.1 false none h.1
+      obtain ⟨t1, t2⟩ := iht.2.2 false h.2
+      cases fst <;> simp [itemA, itemFrags, itemToks, e1, e2, t1, t2, frag_comma, toks_aR, sharedRep_clean]
+  | rep e c t ihe ihc iht =>
+    refine ⟨fun _ _ h => absurd h (by simp [lexWF]), fun _ h => absurd h (by simp [lexArgs]), ?_⟩
+    intro fst h
+    simp only [lexItems] at h
+    obtain ⟨e1, e2⟩ := ihe.1 false none h.1
+    obtain ⟨c1, c2⟩ := ihc.1 false none h.2.1
+    obtain ⟨t1, t2⟩ := iht.2.2 false h.2.2
+    cases fst <;> simp [itemA, itemFrags, itemToks, e1, e2, c1, c2, t1, t2, frag_comma, frag_colon_r, toks_aR, sharedRep_clean, hrep]
+
+/-! ### static safety of the annotated expression fragments -/
+
+/-- tokens an expression's output can end with (and `[`, after which anything may follow) -/
+def endTok : Tok → Bool
+  | .id _ | .kw _ | .bin _ | .estr _ | .rp | .rb | .lb | .int _ => true
+  | _ => false
+
+def EndO (lt : Option Tok) : Prop := ∀ t, lt = some t → endTok t = true
+def NotInt (lt : Option Tok) : Prop := ∀ n, lt ≠ some (.int n)
+/-- what may be open before an expression printed with `paren = p` -/
+def Pre (slt : Option Tok) (p : Bool) : Prop := slt = none ∨ slt = some .lb ∨ (slt = some (.op .minus) ∧ p = true)
+
+/-- does the printed expression end with an integer literal -/
+def intEnd : Expr → Bool → Option BinOp → Bool
+  | .lit (.int _), _, _ => true
+  | .bin o _ b, p, q => !binParen o p q && intEnd b true (some o)
+  | .neg a, p, _ => !p && intEnd a true none
+  | .not a, p, _ => !p && intEnd a true none
+  | _, _, _ => false
+
+def Post (e : Expr) (p : Bool) (q : Option BinOp) (lt : Option Tok) : Prop := EndO lt ∧ (intEnd e p q = false → NotInt lt)
+
+theorem adj_end (t : Tok) (h : endTok t = true) :
+    adjOK t .comma = true ∧ adjOK t .rb = true ∧ adjOK t .lb = true ∧ adjOK t .bslash = true
+      ∧ ((∀ n, t ≠ .int n) → adjOK t .dot = true) := by
+  cases t <;> simp [endTok] at h <;> simp (decide := true) [adjOK, sp, nextOK]
+
+theorem adj_lb (t : Tok) : adjOK .lb t = true := by
+  simp only [adjOK, nextOK]; split <;> simp
+
+theorem adj_minus (t : Tok) (h : ∀ r, sp t ≠ '-' :: r) : adjOK (.op .minus) t = true := by
+  have hm : BinOp.minus.text.toList.all idChar = false := by decide
+  unfold adjOK
+  cases hs : sp t with
+  | nil => rfl
+  | cons c r =>
+    have : c ≠ '-' := fun hc => h r (by rw [hs, hc])
+    simp [nextOK, hm, this]
+
+theorem pre_adj {slt : Option Tok} {p : Bool} (hpre : Pre slt p) (t : Tok) (h : p = true → ∀ r, sp t ≠ '-' :: r) :
+    ∀ t0, slt = some t0 → adjOK t0 t = true := by
+  intro t0 h0
+  rcases hpre with h1 | h1 | ⟨h1, hp⟩
+  · rw [h1] at h0; cases h0
+  · rw [h1] at h0; cases h0; exact adj_lb t
+  · rw [h1] at h0; cases h0; exact adj_minus t (h hp)
+
+theorem id_no_minus (s : String) (h : TokWF (.id s)) : ∀ r, sp (.id s) ≠ '-' :: r := by
+  obtain ⟨⟨c, r', hs, ha⟩, _, _⟩ := h
+  intro r hr
+  simp only [sp] at hr
+  rw [hs] at hr
+  cases hr
+  revert ha; decide
+
+theorem int_no_minus (n : Nat) : ∀ r, sp (.int n) ≠ '-' :: r := by
+  intro r hr
+  rw [sp_int] at hr
+  have hdig : ∀ x ∈ Nat.toDigits 10 n, x.isDigit = true := fun x hx => Nat.isDigit_of_mem_toDigits (by omega) (by omega) hx
+  have := hdig '-' (by rw [hr]; simp)
+  revert this; decide
+
+def startsMinus : List Char → Bool
+  | '-' :: _ => true
+  | _ => false
+
+theorem no_minus_of (t : Tok) (h : startsMinus (sp t) = false) : ∀ r, sp t ≠ '-' :: r := by
+  intro r hr; rw [hr] at h; simp [startsMinus] at h
+
+theorem post_some {e : Expr} {p : Bool} {q : Option BinOp} (t : Tok) (h1 : endTok t = true)
+    (h2 : intEnd e p q = false → ∀ n, t ≠ .int n) : Post e p q (some t) :=
+  ⟨fun t' h => by cases h; exact h1, fun hi n hn => by cases hn; exact h2 hi n rfl⟩
+
+theorem pre_true {slt : Option Tok} {p : Bool} (h : Pre slt p) : Pre slt true := by
+  rcases h with h | h | ⟨h, _⟩
+  · exact Or.inl h
+  · exact Or.inr (Or.inl h)
+  · exact Or.inr (Or.inr ⟨h, rfl⟩)
+
+theorem wf_lp : TokWF .lp := trivial
+theorem wf_rp : TokWF .rp := trivial
+theorem wf_lb : TokWF .lb := trivial
+theorem wf_rb : TokWF .rb := trivial
+theorem wf_comma : TokWF .comma := trivial
+theorem wf_colon : TokWF .colon := trivial
+theorem wf_dot : TokWF .dot := trivial
+theorem wf_bslash : TokWF .bslash := trivial
+theorem wf_bar : TokWF .bar := trivial
+theorem wf_allIn : TokWF .allIn := trivial
+theorem wf_op (o : BinOp) : TokWF (.op o) := trivial
+theorem wf_not : TokWF .not := trivial
+theorem wf_query : TokWF (.kw "QUERY") := by simp [TokWF]
+
+theorem adj_dot (t : Tok) : adjOK .dot t = true := by
+  simp only [adjOK, nextOK]; split <;> simp
+theorem adj_bslash (t : Tok) : adjOK .bslash t = true := by
+  simp only [adjOK, nextOK]; split <;> simp
+theorem adj_id_lp (f : String) : adjOK (.id f) .lp = true := by
+  simp (decide := true) [adjOK, sp, nextOK]
+
+theorem intEnd_operand (a : Expr) (h : ∀ n, a ≠ .lit (.int n)) : intEnd a true none = false := by
+  cases a with
+  | lit l => cases l <;> first | rfl | exact absurd rfl (h _)
+  | bin o x y => simp [intEnd, binParen, padded_all]
+  | _ => simp [intEnd]
+
+theorem endO_adj {lt : Option Tok} (h : EndO lt) :
+    (∀ t0, lt = some t0 → adjOK t0 .comma = true) ∧ (∀ t0, lt = some t0 → adjOK t0 .rb = true)
+      ∧ (∀ t0, lt = some t0 → adjOK t0 .lb = true) ∧ (∀ t0, lt = some t0 → adjOK t0 .bslash = true) :=
+  ⟨fun t0 h0 => (adj_end t0 (h t0 h0)).1, fun t0 h0 => (adj_end t0 (h t0 h0)).2.1,
+   fun t0 h0 => (adj_end t0 (h t0 h0)).2.2.1, fun t0 h0 => (adj_end t0 (h t0 h0)).2.2.2.1⟩
+
+theorem safe_lit (l : Lit) (h : LitLex l) (p : Bool) (q : Option BinOp) (slt : Option Tok) (hpre : Pre slt p) :
+    SafeSeq slt (annot (.lit l) p q) ∧ Post (.lit l) p q (flowSeq slt (annot (.lit l) p q)) := by
+  have hb : ExpPrec.binaryPrintedFrom = ExpPrec.binaryStoredIn := by decide
+  have key : ∀ t : Tok, litToks l = [t] → TokWF t → startsMinus (sp t) = false → endTok t = true →
+      ((∀ n, l ≠ .int n) → ∀ n, t ≠ .int n) →
+      SafeSeq slt (annot (.lit l) p q) ∧ Post (.lit l) p q (flowSeq slt (annot (.lit l) p q)) := by
+    intro t ht hwf hm he hni
+    simp only [annot, ht, List.map, SafeSeq, flowSeq, AFrag.prev, AFrag.flow, aW, bodySafe, endAfter, nxt, if_true, and_true]
+    refine ⟨⟨hwf, pre_adj hpre _ (fun _ => no_minus_of t hm)⟩, post_some _ he ?_⟩
+    intro hi
+    apply hni
+    intro n hn; subst hn; simp [intEnd] at hi
+  cases l with
+  | real g => exact absurd h (by simp [LitLex])
+  | str s => exact absurd h (by simp [LitLex])
+  | int n =>
+    apply key (.int n) rfl trivial ?_ rfl (fun hh m _ => hh n rfl)
+    cases hs : sp (.int n) with
+    | nil => rfl
+    | cons c r =>
+      unfold startsMinus
+      split
+      · rename_i heq; injection heq with h1 h2; subst h1; exact absurd hs (int_no_minus n _)
+      · rfl
+  | estr s => exact key (.estr s) rfl h (by simp [sp, startsMinus]) rfl (fun _ n hn => by cases hn)
+  | bin s =>
+    apply key (.bin s) (by simp [litToks, hb]) h (by simp [sp, startsMinus]) rfl (fun _ n hn => by cases hn)
+  | ltrue => exact key (.kw "TRUE") rfl (by simp [TokWF]) (by decide) rfl (fun _ n hn => by cases hn)
+  | lfalse => exact key (.kw "FALSE") rfl (by simp [TokWF]) (by decide) rfl (fun _ n hn => by cases hn)
+  | lunknown => exact key (.kw "UNKNOWN") rfl (by simp [TokWF]) (by decide) rfl (fun _ n hn => by cases hn)
+  | pi => exact key (.kw "PI") (by simp [litToks]) (by simp [TokWF]) (by decide) rfl (fun _ n hn => by cases hn)
+  | e => exact key (.kw "CONST_E") (by simp [litToks]) (by simp [TokWF]) (by decide) rfl (fun _ n hn => by cases hn)
+  | infinity => exact key (.kw "?") rfl (by simp [TokWF]) (by decide) rfl (fun _ n hn => by cases hn)
+  | self => exact key (.kw "SELF") rfl (by simp [TokWF]) (by decide) rfl (fun _ n hn => by cases hn)
+
+theorem safe_all (e : Expr) :
+    (∀ p q slt, lexWF e → Pre slt p → SafeSeq slt (annot e p q) ∧ Post e p q (flowSeq slt (annot e p q)))
+    ∧ (∀ fst slt, lexArgs e → (fst = true → slt = none) → (fst = false → EndO slt) → SafeSeq slt (argA e fst))
+    ∧ (∀ fst slt, lexItems e → (fst = true → slt = some .lb) → (fst = false → EndO slt) →
+        SafeSeq slt (itemA e fst) ∧ EndO (flowSeq slt (itemA e fst))) := by
+  have hrep : ExpPrec.repeatOverwritesCountType = false := rfl
+  have lpm : ∀ r, sp .lp ≠ '-' :: r := no_minus_of _ rfl
+  have lbm : ∀ r, sp .lb ≠ '-' :: r := no_minus_of _ rfl
+  induction e with
+  | lit l =>
+    refine ⟨?_, fun _ _ h => absurd h (by simp [lexArgs]), fun _ _ h => absurd h (by simp [lexItems])⟩
+    intro p q slt h hpre
+    exact safe_lit l h p q slt hpre
+  | ident s =>
+    refine ⟨?_, fun _ _ h => absurd h (by simp [lexArgs]), fun _ _ h => absurd h (by simp [lexItems])⟩
+    intro p q slt h hpre
+    simp only [lexWF] at h
+    simp only [annot, SafeSeq, flowSeq, AFrag.prev, AFrag.flow, aW, bodySafe, endAfter, nxt, if_true, and_true]
+    exact ⟨⟨h, pre_adj hpre _ (fun _ => id_no_minus s h)⟩, post_some (.id s) rfl (fun _ n hn => by cases hn)⟩
+  | bin o a b iha ihb =>
+    refine ⟨?_, fun _ _ h => absurd h (by simp [lexArgs]), fun _ _ h => absurd h (by simp [lexItems])⟩
+    intro p q slt h hpre
+    simp only [lexWF] at h
+    obtain ⟨b1, b2⟩ := ihb.1 true (some o) none h.2 (Or.inl rfl)
+    by_cases hp : binParen o p q = true
+    · obtain ⟨a1, a2⟩ := iha.1 true (some o) none h.1 (Or.inl rfl)
+      simp [annot, hp, safeSeq_append, flowSeq_append, SafeSeq, flowSeq, AFrag.prev, AFrag.flow, aW, aR, bodySafe, endAfter, nxt, wf_lp, wf_rp, wf_lb, wf_rb, wf_comma, wf_colon, wf_dot, wf_bslash, wf_bar, wf_allIn, wf_op, wf_not, wf_query, a1, b1]
+      exact ⟨pre_adj hpre _ (fun _ => lpm), post_some .rp rfl (fun _ n hn => by cases hn)⟩
+    · obtain ⟨a1, a2⟩ := iha.1 true (some o) slt h.1 (pre_true hpre)
+      simp [annot, hp, safeSeq_append, flowSeq_append, SafeSeq, flowSeq, AFrag.prev, AFrag.flow, aW, aR, bodySafe, endAfter, nxt, wf_lp, wf_rp, wf_lb, wf_rb, wf_comma, wf_colon, wf_dot, wf_bslash, wf_bar, wf_allIn, wf_op, wf_not, wf_query, a1, b1]
+      exact ⟨b2.1, fun hi => b2.2 (by simpa [intEnd, hp] using hi)⟩
+  | neg a iha =>
+    refine ⟨?_, fun _ _ h => absurd h (by simp [lexArgs]), fun _ _ h => absurd h (by simp [lexItems])⟩
+    intro p q slt h hpre
+    simp only [lexWF] at h
+    obtain ⟨a1, a2⟩ := iha.1 true none (some (.op .minus)) h (Or.inr (Or.inr ⟨rfl, rfl⟩))
+    cases p with
+    | true =>
+      simp [annot, safeSeq_append, flowSeq_append, SafeSeq, flowSeq, AFrag.prev, AFrag.flow, aW, aR, bodySafe, endAfter, nxt, wf_lp, wf_rp, wf_lb, wf_rb, wf_comma, wf_colon, wf_dot, wf_bslash, wf_bar, wf_allIn, wf_op, wf_not, wf_query, a1]
+      exact ⟨pre_adj hpre _ (fun _ => lpm), post_some .rp rfl (fun _ n hn => by cases hn)⟩
+    | false =>
+      simp [annot, safeSeq_append, flowSeq_append, SafeSeq, flowSeq, AFrag.prev, AFrag.flow, aW, aR, bodySafe, endAfter, nxt, wf_lp, wf_rp, wf_lb, wf_rb, wf_comma, wf_colon, wf_dot, wf_bslash, wf_bar, wf_allIn, wf_op, wf_not, wf_query, a1]
+      refine ⟨pre_adj hpre _ (fun hh => by cases hh), a2.1, fun hi => a2.2 (by simpa [intEnd] using hi)⟩
+  | not a iha =>
+    refine ⟨?_, fun _ _ h => absurd h (by simp [lexArgs]), fun _ _ h => absurd h (by simp [lexItems])⟩
+    intro p q slt h hpre
+    simp only [lexWF] at h
+    obtain ⟨a1, a2⟩ := iha.1 true none none h (Or.inl rfl)
+    cases p with
+    | true =>
+      simp [annot, safeSeq_append, flowSeq_append, SafeSeq, flowSeq, AFrag.prev, AFrag.flow, aW, aR, bodySafe, endAfter, nxt, wf_lp, wf_rp, wf_lb, wf_rb, wf_comma, wf_colon, wf_dot, wf_bslash, wf_bar, wf_allIn, wf_op, wf_not, wf_query, a1]
+      exact ⟨pre_adj hpre _ (fun _ => lpm), post_some .rp rfl (fun _ n hn => by cases hn)⟩
+    | false =>
+      simp [annot, safeSeq_append, flowSeq_append, SafeSeq, flowSeq, AFrag.prev, AFrag.flow, aW, aR, bodySafe, endAfter, nxt, wf_lp, wf_rp, wf_lb, wf_rb, wf_comma, wf_colon, wf_dot, wf_bslash, wf_bar, wf_allIn, wf_op, wf_not, wf_query, a1]
+      refine ⟨pre_adj hpre _ (fun hh => by cases hh), a2.1, fun hi => a2.2 (by simpa [intEnd] using hi)⟩
+  | dot a f iha =>
+    refine ⟨?_, fun _ _ h => absurd h (by simp [lexArgs]), fun _ _ h => absurd h (by simp [lexItems])⟩
+    intro p q slt h hpre
+    simp only [lexWF] at h
+    obtain ⟨a1, a2⟩ := iha.1 true none slt h.1 (pre_true hpre)
+    have hni := a2.2 (intEnd_operand a h.2.2)
+    simp [annot, safeSeq_append, flowSeq_append, SafeSeq, flowSeq, AFrag.prev, AFrag.flow, aW, aR, bodySafe, endAfter, nxt, wf_lp, wf_rp, wf_lb, wf_rb, wf_comma, wf_colon, wf_dot, wf_bslash, wf_bar, wf_allIn, wf_op, wf_not, wf_query, a1]
+    exact ⟨⟨fun t0 h0 => (adj_end t0 (a2.1 t0 h0)).2.2.2.2 (fun n hn => hni n (by rw [h0, hn])), h.2.1, adj_dot _⟩,
+      post_some (.id f) rfl (fun _ n hn => by cases hn)⟩
+  | group a f iha =>
+    refine ⟨?_, fun _ _ h => absurd h (by simp [lexArgs]), fun _ _ h => absurd h (by simp [lexItems])⟩
+    intro p q slt h hpre
+    simp only [lexWF] at h
+    obtain ⟨a1, a2⟩ := iha.1 true none slt h.1 (pre_true hpre)
+    simp [annot, safeSeq_append, flowSeq_append, SafeSeq, flowSeq, AFrag.prev, AFrag.flow, aW, aR, bodySafe, endAfter, nxt, wf_lp, wf_rp, wf_lb, wf_rb, wf_comma, wf_colon, wf_dot, wf_bslash, wf_bar, wf_allIn, wf_op, wf_not, wf_query, a1]
+    exact ⟨⟨(endO_adj a2.1).2.2.2, h.2, adj_bslash _⟩, post_some (.id f) rfl (fun _ n hn => by cases hn)⟩
+  | index a i iha ihi =>
+    refine ⟨?_, fun _ _ h => absurd h (by simp [lexArgs]), fun _ _ h => absurd h (by simp [lexItems])⟩
+    intro p q slt h hpre
+    simp only [lexWF] at h
+    obtain ⟨a1, a2⟩ := iha.1 true none slt h.1 (pre_true hpre)
+    obtain ⟨i1, i2⟩ := ihi.1 (indexParen i) none (some .lb) h.2 (Or.inr (Or.inl rfl))
+    simp [annot, safeSeq_append, flowSeq_append, SafeSeq, flowSeq, AFrag.prev, AFrag.flow, aW, aR, bodySafe, endAfter, nxt, wf_lp, wf_rp, wf_lb, wf_rb, wf_comma, wf_colon, wf_dot, wf_bslash, wf_bar, wf_allIn, wf_op, wf_not, wf_query, a1, i1]
+    exact ⟨⟨(endO_adj a2.1).2.2.1, (endO_adj i2.1).2.1⟩, post_some .rb rfl (fun _ n hn => by cases hn)⟩
+  | range a i j iha ihi ihj =>
+    refine ⟨?_, fun _ _ h => absurd h (by simp [lexArgs]), fun _ _ h => absurd h (by simp [lexItems])⟩
+    intro p q slt h hpre
+    simp only [lexWF] at h
+    obtain ⟨a1, a2⟩ := iha.1 true none slt h.1 (pre_true hpre)
+    obtain ⟨i1, i2⟩ := ihi.1 (indexParen i) none (some .lb) h.2.1 (Or.inr (Or.inl rfl))
+    obtain ⟨j1, j2⟩ := ihj.1 (indexParen j) none none h.2.2 (Or.inl rfl)
+    simp [annot, safeSeq_append, flowSeq_append, SafeSeq, flowSeq, AFrag.prev, AFrag.flow, aW, aR, bodySafe, endAfter, nxt, wf_lp, wf_rp, wf_lb, wf_rb, wf_comma, wf_colon, wf_dot, wf_bslash, wf_bar, wf_allIn, wf_op, wf_not, wf_query, a1, i1, j1]
+    exact ⟨⟨(endO_adj a2.1).2.2.1, (endO_adj j2.1).2.1⟩, post_some .rb rfl (fun _ n hn => by cases hn)⟩
+  | query v s c ihs ihc =>
+    refine ⟨?_, fun _ _ h => absurd h (by simp [lexArgs]), fun _ _ h => absurd h (by simp [lexItems])⟩
+    intro p q slt h hpre
+    simp only [lexWF] at h
+    obtain ⟨s1, s2⟩ := ihs.1 true none none h.2.1 (Or.inl rfl)
+    obtain ⟨c1, c2⟩ := ihc.1 true none none h.2.2 (Or.inl rfl)
+    simp [annot, safeSeq_append, flowSeq_append, SafeSeq, flowSeq, AFrag.prev, AFrag.flow, aW, aR, bodySafe, endAfter, nxt, wf_lp, wf_rp, wf_lb, wf_rb, wf_comma, wf_colon, wf_dot, wf_bslash, wf_bar, wf_allIn, wf_op, wf_not, wf_query, s1, c1]
+    exact ⟨⟨pre_adj hpre _ (fun _ => no_minus_of _ (by decide)), h.1⟩, post_some .rp rfl (fun _ n hn => by cases hn)⟩
+  | call f args ih =>
+    refine ⟨?_, fun _ _ h => absurd h (by simp [lexArgs]), fun _ _ h => absurd h (by simp [lexItems])⟩
+    intro p q slt h hpre
+    simp only [lexWF] at h
+    have s1 := ih.2.1 true none h.2 (fun _ => rfl) (fun hh => by cases hh)
+    simp [annot, safeSeq_append, flowSeq_append, SafeSeq, flowSeq, AFrag.prev, AFrag.flow, aW, aR, bodySafe, endAfter, nxt, wf_lp, wf_rp, wf_lb, wf_rb, wf_comma, wf_colon, wf_dot, wf_bslash, wf_bar, wf_allIn, wf_op, wf_not, wf_query, s1]
+    exact ⟨⟨h.1, pre_adj hpre _ (fun _ => id_no_minus f h.1), adj_id_lp f⟩, post_some .rp rfl (fun _ n hn => by cases hn)⟩
+  | aggr items ih =>
+    refine ⟨?_, fun _ _ h => absurd h (by simp [lexArgs]), fun _ _ h => absurd h (by simp [lexItems])⟩
+    intro p q slt h hpre
+    simp only [lexWF] at h
+    obtain ⟨s1, s2⟩ := ih.2.2 true (some .lb) h (fun _ => rfl) (fun hh => by cases hh)
+    simp [annot, safeSeq_append, flowSeq_append, SafeSeq, flowSeq, AFrag.prev, AFrag.flow, aW, aR, bodySafe, endAfter, nxt, wf_lp, wf_rp, wf_lb, wf_rb, wf_comma, wf_colon, wf_dot, wf_bslash, wf_bar, wf_allIn, wf_op, wf_not, wf_query, s1]
+    exact ⟨⟨pre_adj hpre _ (fun _ => lbm), (endO_adj s2).2.1⟩, post_some .rb rfl (fun _ n hn => by cases hn)⟩
+  | nil =>
+    refine ⟨fun _ _ _ h => absurd h (by simp [lexWF]), ?_, ?_⟩
+    · intro fst slt _ _ _; simp [argA, SafeSeq]
+    · intro fst slt _ h1 h2
+      simp only [itemA, SafeSeq, flowSeq, true_and]
+      cases fst with
+      | true => rw [h1 rfl]; intro t ht; cases ht; rfl
+      | false => exact h2 rfl
+  | cons e t ihe iht =>
+    refine ⟨fun _ _ _ h => absurd h (by simp [lexWF]), ?_, ?_⟩
+    · intro fst slt h h1 h2
+      simp only [lexArgs] at h
+      cases fst with
+      | true =>
+        obtain ⟨e1, e2⟩ := ihe.1 false none slt h.1 (Or.inl (h1 rfl))
+        have t1 := iht.2.1 false _ h.2 (fun hh => by cases hh) (fun _ => e2.1)
+        simp [argA, safeSeq_append, flowSeq_append, SafeSeq, flowSeq, AFrag.prev, AFrag.flow, aW, aR, bodySafe, endAfter, nxt, wf_lp, wf_rp, wf_lb, wf_rb, wf_comma, wf_colon, wf_dot, wf_bslash, wf_bar, wf_allIn, wf_op, wf_not, wf_query, e1, t1]
+      | false =>
+        obtain ⟨e1, e2⟩ := ihe.1 false none none h.1 (Or.inl rfl)
+        have t1 := iht.2.1 false _ h.2 (fun hh => by cases hh) (fun _ => e2.1)
+        simp [argA, safeSeq_append, flowSeq_append, SafeSeq, flowSeq, AFrag.prev, AFrag.flow, aW, aR, bodySafe, endAfter, nxt, wf_lp, wf_rp, wf_lb, wf_rb, wf_comma, wf_colon, wf_dot, wf_bslash, wf_bar, wf_allIn, wf_op, wf_not, wf_query, e1, t1]
+        exact (endO_adj (h2 rfl)).1
+    · intro fst slt h h1 h2
+      simp only [lexItems] at h
+      cases fst with
+      | true =>
+        obtain ⟨e1, e2⟩ := ihe.1 false none slt h.1 (Or.inr (Or.inl (h1 rfl)))
+        obtain ⟨t1, t2⟩ := iht.2.2 false _ h.2 (fun hh => by cases hh) (fun _ => e2.1)
+        simp [itemA, safeSeq_append, flowSeq_append, SafeSeq, flowSeq, AFrag.prev, AFrag.flow, aW, aR, bodySafe, endAfter, nxt, wf_lp, wf_rp, wf_lb, wf_rb, wf_comma, wf_colon, wf_dot, wf_bslash, wf_bar, wf_allIn, wf_op, wf_not, wf_query, e1, t1]
+        exact t2
+      | false =>
+        obtain ⟨e1, e2⟩ := ihe.1 false none none h.1 (Or.inl rfl)
+        obtain ⟨t1, t2⟩ := iht.2.2 false _ h.2 (fun hh => by cases hh) (fun _ => e2.1)
+        simp [itemA, safeSeq_append, flowSeq_append, SafeSeq, flowSeq, AFrag.prev, AFrag.flow, aW, aR, bodySafe, endAfter, nxt, wf_lp, wf_rp, wf_lb, wf_rb, wf_comma, wf_colon, wf_dot, wf_bslash, wf_bar, wf_allIn, wf_op, wf_not, wf_query, e1, t1]
+        exact ⟨(endO_adj (h2 rfl)).1, t2⟩
+  | rep e c t ihe ihc iht =>
+    refine ⟨fun _ _ _ h => absurd h (by simp [lexWF]), fun _ _ h => absurd h (by simp [lexArgs]), ?_⟩
+    intro fst slt h h1 h2
+    simp only [lexItems] at h
+    obtain ⟨c1, c2⟩ := ihc.1 false none none h.2.1 (Or.inl rfl)
+    obtain ⟨t1, t2⟩ := iht.2.2 false _ h.2.2 (fun hh => by cases hh) (fun _ => c2.1)
+    cases fst with
+    | true =>
+      obtain ⟨e1, e2⟩ := ihe.1 false none slt h.1 (Or.inr (Or.inl (h1 rfl)))
+      simp [itemA, hrep, safeSeq_append, flowSeq_append, SafeSeq, flowSeq, AFrag.prev, AFrag.flow, aW, aR, bodySafe, endAfter, nxt, wf_lp, wf_rp, wf_lb, wf_rb, wf_comma, wf_colon, wf_dot, wf_bslash, wf_bar, wf_allIn, wf_op, wf_not, wf_query, e1, c1, t1]
+      exact t2
+    | false =>
+      obtain ⟨e1, e2⟩ := ihe.1 false none none h.1 (Or.inl rfl)
+      simp [itemA, hrep, safeSeq_append, flowSeq_append, SafeSeq, flowSeq, AFrag.prev, AFrag.flow, aW, aR, bodySafe, endAfter, nxt, wf_lp, wf_rp, wf_lb, wf_rb, wf_comma, wf_colon, wf_dot, wf_bslash, wf_bar, wf_allIn, wf_op, wf_not, wf_query, e1, c1, t1]
+      exact ⟨(endO_adj (h2 rfl)).1, t2⟩
+
 end StepModel.Express
